@@ -298,7 +298,11 @@ Inductive xop :=
 | XArrCopyFrom (off tsize n k : N)     (* get_array_ref::<T>(off,n)?.copy_from(&buf[..k]) *)
 | XArrCopyTo (off tsize n k : N)
 | XAtomicLoad (off tsize : N)          (* Bytes::load::<uN>(off) -> get_atomic_ref: NO guard (:260-277, :845-848) *)
-| XCopyToVS (off len : N).             (* get_slice(off,len)?.copy_to_volatile_slice(local): NO guard (:605-615) *)
+| XCopyToVS (off len : N)              (* get_slice(off,len)?.copy_to_volatile_slice(local): NO guard (:605-615) *)
+| XReadFrom (off count srclen : N)     (* Bytes::read_volatile_from(off, &mut &src[..srclen], count) *)
+| XWriteTo (off count : N)             (* Bytes::write_volatile_to(off, &mut Vec, count) *)
+| XSliceCopyFrom (off len tsize k : N) (* get_slice(off,len)?.copy_from::<T>(&buf[..k]) *)
+| XSliceCopyTo (off len tsize k : N).  (* get_slice(off,len)?.copy_to::<T>(&mut buf[..k]) *)
 
 (* what an operation asks of the guard machinery: Error (no guard: the call returns Err / nothing to
    do), or one guard (offset, len, write) plus the byte range it then touches through the guard *)
@@ -368,6 +372,32 @@ Definition op_plan (m : mode) (size : N) (op : xop) : outcome plan :=
       match end_offset size off len with
       | None => Val PErr
       | Some _ => Val (PRaw off len)
+      end
+  | XReadFrom off count srclen =>
+      (* mod.rs:237-250; volatile_memory.rs:796-804: offset(addr)? (Err iff addr > size), then
+         subslice(0, min(len, count)).unwrap(); io.rs:268-283 <&[u8]>::read_volatile: guard of that
+         subslice, min(subslice, src) bytes copied *)
+      if size <? off then Val PErr
+      else let gl := N.min (size - off) count in Val (PGuard off gl true off (N.min gl srclen))
+  | XWriteTo off count =>
+      (* mod.rs:267-280; volatile_memory.rs:814-822; io.rs:309-326 Vec::write_volatile: guard of the
+         subslice, all of it copied *)
+      if size <? off then Val PErr
+      else let gl := N.min (size - off) count in Val (PGuard off gl false off gl)
+  | XSliceCopyFrom off len t k | XSliceCopyTo off len t k =>
+      match end_offset size off len with
+      | None => Val PErr
+      | Some _ =>
+          let wr := match op with XSliceCopyFrom _ _ _ _ => true | _ => false end in
+          if t =? 1 then Val (PGuard off len wr off (N.min k len))      (* :581-583 / :645-653 fast path *)
+          else
+            let* cnt := pdiv 655 len t in                                (* :586 / :655 self.size / size_of::<T>() *)
+            match isz_mul cnt t with                                     (* get_array_ref(0, count).unwrap() *)
+            | None => Panic 658
+            | Some nb =>
+                let* gl := guard_len m (AArray t cnt) in                 (* VolatileArrayRef::copy_{to,from} :1198 / :1282 *)
+                Val (PGuard off gl wr off (N.min k cnt * t))
+            end
       end
   end.
 
